@@ -259,3 +259,153 @@ func feasiblePaths(paths []cfgPath, leaf leafFn) ([]*cfgPath, string) {
 	}
 	return out, ""
 }
+
+// consistentPaths returns the paths none of whose evaluable branch conditions contradicts
+// its polarity; conditions the evaluator cannot decide (a map's comma-ok, a nil test) leave
+// both successors open. undecided counts the conditions left open.
+func consistentPaths(paths []cfgPath, leaf leafFn) (out []*cfgPath, undecided int) {
+	for i := range paths {
+		p := &paths[i]
+		ok := true
+		for _, pc := range p.conds {
+			v, known := evalSSA(p, pc.cond, leaf, 0)
+			b, isB := v.(bool)
+			if !known || !isB {
+				undecided++
+				continue
+			}
+			if b != pc.truth {
+				ok = false
+				break
+			}
+		}
+		if ok {
+			out = append(out, p)
+		}
+	}
+	return
+}
+
+func (p *cfgPath) passes(b *ssa.BasicBlock) bool {
+	for _, x := range p.blocks {
+		if x == b {
+			return true
+		}
+	}
+	return false
+}
+
+// keyPart is one piece of a composed string key: a literal, or an integer value printed in decimal.
+type keyPart struct {
+	lit   string
+	val   ssa.Value
+	width int
+	zero  bool
+}
+
+// keyTemplate reads how a string is composed: fmt.Sprintf with %d/%v verbs on integers,
+// strconv.Itoa, string constants and concatenation. ok=false when some piece is none of these.
+func keyTemplate(v ssa.Value, depth int) (parts []keyPart, ok bool) {
+	if depth > 8 {
+		return nil, false
+	}
+	add := func(ps ...keyPart) {
+		for _, p := range ps {
+			if p.val == nil && len(parts) > 0 && parts[len(parts)-1].val == nil {
+				parts[len(parts)-1].lit += p.lit
+				continue
+			}
+			if p.val == nil && p.lit == "" {
+				continue
+			}
+			parts = append(parts, p)
+		}
+	}
+	switch x := v.(type) {
+	case *ssa.Const:
+		s, isS := constString(x)
+		if !isS {
+			return nil, false
+		}
+		add(keyPart{lit: s})
+		return parts, true
+	case *ssa.BinOp:
+		if x.Op != token.ADD || !isStringType(x.Type()) {
+			return nil, false
+		}
+		l, ok1 := keyTemplate(x.X, depth+1)
+		r, ok2 := keyTemplate(x.Y, depth+1)
+		if !ok1 || !ok2 {
+			return nil, false
+		}
+		add(l...)
+		add(r...)
+		return parts, true
+	case *ssa.Call:
+		callee := x.Common().StaticCallee()
+		if callee == nil {
+			return nil, false
+		}
+		if callee.String() == "strconv.Itoa" {
+			add(keyPart{val: x.Common().Args[0]})
+			return parts, true
+		}
+		if _, f, args, isS := sprintfCall(x); isS {
+			verbs, lits := parseFormat(f)
+			if len(verbs) != len(args) {
+				return nil, false
+			}
+			for i, vb := range verbs {
+				add(keyPart{lit: lits[i]})
+				if (vb.verb != 'd' && vb.verb != 'v') || !isIntType(unwrapIface(args[i]).Type()) {
+					return nil, false
+				}
+				add(keyPart{val: unwrapIface(args[i]), width: vb.width, zero: vb.zero})
+			}
+			add(keyPart{lit: lits[len(lits)-1]})
+			return parts, true
+		}
+	}
+	return nil, false
+}
+
+func unwrapIface(v ssa.Value) ssa.Value {
+	if mi, ok := v.(*ssa.MakeInterface); ok {
+		return mi.X
+	}
+	return v
+}
+
+// templateString prints a key template with each integer part described by describe.
+func templateString(parts []keyPart, describe func(ssa.Value) string) string {
+	var sb strings.Builder
+	for _, p := range parts {
+		if p.val == nil {
+			sb.WriteString(p.lit)
+			continue
+		}
+		sb.WriteString("{" + describe(p.val))
+		if p.width > 0 {
+			if p.zero {
+				sb.WriteString(fmt.Sprintf(":0%d", p.width))
+			} else {
+				sb.WriteString(fmt.Sprintf(":%d", p.width))
+			}
+		}
+		sb.WriteString("}")
+	}
+	return sb.String()
+}
+
+// mapLookups lists the map lookups in fn on the package-level map pkg.name.
+func mapLookups(fn *ssa.Function, table string) []*ssa.Lookup {
+	var out []*ssa.Lookup
+	for _, b := range fn.Blocks {
+		for _, ins := range b.Instrs {
+			if lk, ok := ins.(*ssa.Lookup); ok && isLoadOfTable(lk.X, table) {
+				out = append(out, lk)
+			}
+		}
+	}
+	return out
+}
